@@ -169,6 +169,9 @@ struct Plan {
     alpha_per_pos: usize,
     long_inputs_pct: u64,
     fork_pct: u64,
+    /// exploration-level plans: share of base runs that additionally get an enumerated pass
+    enum_pct: u64,
+    enum_kinds: &'static [&'static str],
 }
 
 const SHAPES_DEFAULT: &[(Shape, u32)] = &[
@@ -201,6 +204,8 @@ fn plan(property: &str, tier: &str) -> Plan {
             alpha_per_pos: 0,
             long_inputs_pct: 0,
             fork_pct: 0,
+            enum_pct: 0,
+            enum_kinds: &[],
         },
         "C05" => Plan {
             profiles: &[
@@ -217,6 +222,8 @@ fn plan(property: &str, tier: &str) -> Plan {
             alpha_per_pos: 0,
             long_inputs_pct: 0,
             fork_pct: 0,
+            enum_pct: 0,
+            enum_kinds: &[],
         },
         "C06" => Plan {
             profiles: &[
@@ -232,6 +239,8 @@ fn plan(property: &str, tier: &str) -> Plan {
             alpha_per_pos: 0,
             long_inputs_pct: 0,
             fork_pct: 15,
+            enum_pct: 0,
+            enum_kinds: &[],
         },
         "C07" => Plan {
             profiles: &[(Profile::Accumulate, 45), (Profile::Fallible, 45), (Profile::Plain, 10)],
@@ -242,6 +251,8 @@ fn plan(property: &str, tier: &str) -> Plan {
             alpha_per_pos: if thorough { ALPHABET.len() } else { 3 },
             long_inputs_pct: 0,
             fork_pct: 0,
+            enum_pct: 0,
+            enum_kinds: &[],
         },
         "C08" => Plan {
             profiles: &[(Profile::Tour, 70), (Profile::Chaos, 15), (Profile::Accumulate, 15)],
@@ -252,6 +263,8 @@ fn plan(property: &str, tier: &str) -> Plan {
             alpha_per_pos: if thorough { 4 } else { 2 },
             long_inputs_pct: 0,
             fork_pct: 0,
+            enum_pct: 0,
+            enum_kinds: &[],
         },
         "C09" => Plan {
             profiles: &[
@@ -268,6 +281,8 @@ fn plan(property: &str, tier: &str) -> Plan {
             alpha_per_pos: 0,
             long_inputs_pct: if thorough { 3 } else { 1 },
             fork_pct: 0,
+            enum_pct: 15,
+            enum_kinds: &["alien_pair", "double_alien"],
         },
         "C10" => Plan {
             profiles: &[(Profile::Accumulate, 40), (Profile::Chaos, 30), (Profile::Fallible, 20), (Profile::Plain, 10)],
@@ -278,6 +293,8 @@ fn plan(property: &str, tier: &str) -> Plan {
             alpha_per_pos: 0,
             long_inputs_pct: 0,
             fork_pct: 0,
+            enum_pct: 0,
+            enum_kinds: &[],
         },
         "C14" => Plan {
             profiles: &[
@@ -294,6 +311,8 @@ fn plan(property: &str, tier: &str) -> Plan {
             alpha_per_pos: 0,
             long_inputs_pct: 0,
             fork_pct: 0,
+            enum_pct: 0,
+            enum_kinds: &[],
         },
         "C15" => Plan {
             profiles: &[
@@ -310,6 +329,8 @@ fn plan(property: &str, tier: &str) -> Plan {
             alpha_per_pos: 0,
             long_inputs_pct: 0,
             fork_pct: 100,
+            enum_pct: 0,
+            enum_kinds: &[],
         },
         _ => Plan {
             profiles: &[(Profile::Plain, 100)],
@@ -320,6 +341,8 @@ fn plan(property: &str, tier: &str) -> Plan {
             alpha_per_pos: 0,
             long_inputs_pct: 0,
             fork_pct: 0,
+            enum_pct: 0,
+            enum_kinds: &[],
         },
     }
 }
@@ -785,8 +808,8 @@ fn units_for_base(args: &WorkerArgs, pc: &mut ProgCtx, pl: &Plan, b: u64) -> Vec
             s.faults = vec![f];
             s
         };
-        match &pl.fault {
-            FaultMode::Sample(pct) => {
+        if let FaultMode::Sample(pct) = &pl.fault {
+            {
                 if r_fault.chance(*pct, 100) {
                     if let Some(f) = sample_fault(&mut r_fault, &text, &place, true) {
                         let mut s = with_fault(f.clone());
@@ -803,7 +826,8 @@ fn units_for_base(args: &WorkerArgs, pc: &mut ProgCtx, pl: &Plan, b: u64) -> Vec
                         // recovery, then another failure / an action error / the end of input):
                         // substitutions keep positions stable, so faults compose by position
                         let mut extra = 0;
-                        while extra < 2 && r_fault.chance(1, 4) {
+                        let extra_pct: u64 = if args.property == "C09" { 50 } else { 25 };
+                        while extra < 2 && r_fault.chance(extra_pct, 100) {
                             extra += 1;
                             let first_at = match s.faults[0] {
                                 Fault::CorruptAlien { at } | Fault::CorruptAlpha { at, .. } => Some(at),
@@ -814,7 +838,22 @@ fn units_for_base(args: &WorkerArgs, pc: &mut ProgCtx, pl: &Plan, b: u64) -> Vec
                             if s.unfused_at.is_some() || s.text.len() != text.len() {
                                 break;
                             }
-                            let Some(g) = sample_fault(&mut r_fault, &text, &place, true) else { break };
+                            let Some(mut g) = sample_fault(&mut r_fault, &text, &place, true) else { break };
+                            // half of the time (C09) the next fault strikes shortly after the
+                            // previous one: failure, no successful token, failure again - the
+                            // histories in which stale rewind state can survive
+                            if args.property == "C09" && r_fault.chance(1, 2) {
+                                let prev = s
+                                    .faults
+                                    .iter()
+                                    .filter_map(|f| match f {
+                                        Fault::CorruptAlien { at } | Fault::CorruptAlpha { at, .. } => Some(*at),
+                                        _ => None,
+                                    })
+                                    .max()
+                                    .unwrap_or(first_at);
+                                g = Fault::CorruptAlien { at: prev + 1 + r_fault.usize_below(5) };
+                            }
                             let taken = |q: usize, s: &RunSpec| {
                                 s.faults.iter().any(|f| matches!(f, Fault::CorruptAlien { at } | Fault::CorruptAlpha { at, .. } if *at == q))
                             };
@@ -847,7 +886,21 @@ fn units_for_base(args: &WorkerArgs, pc: &mut ProgCtx, pl: &Plan, b: u64) -> Vec
                     }
                 }
             }
-            FaultMode::Enumerate(kinds) => {
+        }
+        {
+            {
+                // enumeration-level checks enumerate for every base run; exploration-level checks
+                // may add an enumerated pass (`enum_kinds`) for a share of their base runs
+                let kinds: &[&str] = match &pl.fault {
+                    FaultMode::Enumerate(k) => k,
+                    FaultMode::Sample(_) => {
+                        if pl.enum_pct > 0 && r_fault.chance(pl.enum_pct, 100) {
+                            pl.enum_kinds
+                        } else {
+                            &[]
+                        }
+                    }
+                };
                 for kind in kinds.iter() {
                     match *kind {
                         "truncate" => {
